@@ -89,7 +89,7 @@ def run(res):
     vh, exe = P.base(res, PROP)
     rng = random.Random(res.seed)
     cases = []
-    for _ in range(500 if res.tier == "quick" else 40000):
+    for _ in range(500 if res.tier == "quick" else 200000):
         lines, code, defs, used = gen_case(rng)
         cases.append(("\n".join(lines) + "\n", ("OK", code), "reference"))
         for (idx, kind, name) in defs:
@@ -97,6 +97,9 @@ def run(res):
                 cases.append(("\n".join(lines[:idx] + [""] + lines[idx + 1:]) + "\n", ("ERR",), "deleted-" + kind))
             if kind == "label":
                 cases.append(("\n".join(lines[:idx] + [lines[idx], "  .dw 0", lines[idx].swapcase()] + lines[idx + 1:]) + "\n", ("ERR",), "duplicated-label"))
+                seg = rng.choice([".dseg", ".eseg"])
+                cases.append(("\n".join(lines[:idx + 1] + [seg, lines[idx].swapcase(), ".cseg"] + lines[idx + 1:]) + "\n", ("ERR",), "duplicated-label-other-segment"))
+                cases.append(("\n".join([seg, lines[idx].swapcase(), ".cseg"] + lines) + "\n", ("ERR",), "duplicated-label-other-segment"))
     fixed = [
         (".def tmp = r16\n.undef tmp\n mov tmp, r1\n", ("ERR",), "alias-after-undef"),
         (".def tmp = r16\n mov TMP, r1\n.undef TMP\n", ("OK", "012d"), "alias-case"),
@@ -108,6 +111,11 @@ def run(res):
         (" .dw fwd\nnop\nfwd: nop\n", ("OK", "020000000000"), "label-forward"),
         ("a: nop\nA: nop\n", ("ERR",), "duplicate-label-case"),
         (".equ k = 3\n .dw K, k\n", ("OK", "03000300"), "equ-case"),
+        ("a: nop\n.dseg\na: .byte 1\n", ("ERR",), "duplicate-label-cseg-dseg"),
+        (".dseg\nv: .byte 1\n.eseg\nV: .db 1\n", ("ERR",), "duplicate-label-dseg-eseg"),
+        (".eseg\ne: .db 1\n.cseg\ne: nop\n", ("ERR",), "duplicate-label-eseg-cseg"),
+        (" nop\n .dw PC, pc, Pc + 1\n", ("OK", "0000010001000200"), "pc-case"),
+        (" rjmp PC\n rjmp pc\n", ("OK", "ffcfffcf"), "pc-case"),
         (".def tmp = r16\n.dseg\n.undef tmp\n.cseg\n mov tmp, r1\n", ("ERR",), "undef-in-dseg"),
         (".set v = 1\n.dseg\n.set v = 2\n.cseg\n .dw v\n", ("OK", "0200"), "set-in-dseg"),
         (".eseg\n.def cnt = r20\n.cseg\n mov cnt, r1\n", ("OK", "412d"), "def-in-eseg"),
